@@ -58,7 +58,21 @@ chk("C18", "latx", "exploration",
     "Estimator replaced by a stub (the handlers only consume its numbers); grids and vectors outside the lattice are "
     "not covered.", "DESIGN.md §5/C18")
 
+chk("C06", "seqx", "model_checking",
+    "explicit-state breadth-first search over all protocol-respecting push/trash/get/pickle histories (3-4 handlers, "
+    "tie-rich and 2^40/2^52 time alphabets, empty / pre-filled across the realloc boundary / counters just below 2^32 "
+    "start states) executed on the real HeapScheduler and ListScheduler and compared with a reference dict at every "
+    "step; plus an exhaustive C driver on heap.c under ASan+UBSan",
+    "Every transition of the bounded state space is executed on freshly rebuilt real objects (the model is the "
+    "reference dict, so every explored trace is an implementation trace); states are merged only by a canonical form "
+    "containing every field the future depends on; a drain oracle runs in every state.",
+    "Bounded depth (6-9 operations beyond the start states), 3-4 handlers; deletion counters near 2^32 are preset "
+    "through the scheduler's counter dictionary; realloc failure is not driven.", "DESIGN.md §5/C06")
+
 ENGINES = [
+    {"name": "seqx", "path": "jfv/checks/c06.py", "serves_properties": ["C06", "C13", "C11"],
+     "kind_free_text": "explicit-state BFS over operation histories on real objects (rebuilt per transition) against "
+                       "a reference model, canonical-state deduplication"},
     {"name": "latx", "path": "jfv/par.py", "serves_properties": ["C14", "C15", "C16", "C05", "C18", "C02", "C03",
                                                                     "C04", "C10"],
      "kind_free_text": "exhaustive evaluation of real functions/objects on finite critical-value lattices against "
